@@ -258,3 +258,148 @@ def replay(ctx, log):
 
 
 CHECK.machine("manager_histories", factory, replay, quick=(160, 14), thorough=(4800, 25))
+
+
+# ------------------------------------------------------------------------------------------------
+# the tracking pipeline's usual path: ground truth obtained by INTERPOLATION (deep copies of loaded, already evaluated
+# objects with reassigned state, frame id "map") must evaluate exactly like an equal frame built from scratch
+# ------------------------------------------------------------------------------------------------
+
+
+def _interp_cases(tier):
+    from checks import c05
+
+    return st.tuples(c05.tracking_histories(tier), st.integers(1, 9)).map(lambda t: {"case": t[0], "alpha10": t[1]})
+
+
+@CHECK.given("interpolated_frame_evaluation", _interp_cases, quick=50, thorough=2500)
+def interpolated_frame_evaluation(ctx, dd):
+    import math
+
+    from perception_eval.common.dataset import FrameGroundTruth
+    from perception_eval.common.object import DynamicObject
+    from perception_eval.common.schema import FrameID
+    from perception_eval.common.shape import Shape, ShapeType
+    from perception_eval.common.transform import HomogeneousMatrix
+
+    d = dict(dd["case"])
+    d["frames"] = d["frames"][:2]
+    f0, f1 = d["frames"]
+    frame = d["frame"]
+    t0, t1 = D.T0, D.T0 + 100_000
+    t = t0 + dd["alpha10"] * 10_000
+
+    def build_pool():
+        # (P6) loaded objects that exist in both neighbouring samples carry a velocity
+        g0 = [dict(g, vel=[0.0, 0.0, 0.0]) for g in f0["gt"]]
+        g1 = [dict(g, vel=[0.0, 0.0, 0.0]) for g in f1["gt"]]
+        return [D.frame_gt(g0, frame, f0["ego"], t0, "0"), D.frame_gt(g1, frame, f1["ego"], t1, "1")]
+
+    def add(mgr, now, ests, tt, f):
+        res = None
+        with ctx.under_test("add_frame_result"):
+            res = mgr.add_frame_result(
+                unix_time=tt,
+                ground_truth_now_frame=now,
+                estimated_objects=list(ests),
+                critical_object_filter_config=MG.crit_config(mgr, d, f),
+                frame_pass_fail_config=MG.pf_config(mgr, d, f),
+            )
+        return res
+
+    # manager 1: loaded frames, frame 0 evaluated first, then the interpolated frame
+    m1 = MG.make_manager(d)
+    pool = build_pool()
+    m1.ground_truth_frames = pool
+    e0 = D.objs3d(f0["est"], frame, f0["ego"], t0)
+    if add(m1, pool[0], e0, t0, f0) is None:
+        return
+    now = None
+    with ctx.under_test("get_ground_truth_now_frame(interpolate)"):
+        now = m1.get_ground_truth_now_frame(t, 200_000, interpolate_ground_truth=True)
+    if now is None or now is pool[0] or now is pool[1]:
+        ctx.violate("interpolated:not-interpolated", f"lookup strictly between two frames within tolerance returned {now!r}")
+        return
+    # estimates next to the interpolated ground truths, in the frame the interpolated objects are expressed in
+    ests_desc = []
+    for k, e in enumerate(f1["est"]):
+        j = min(range(len(f1["gt"])), key=lambda i: math.dist(e["p"], f1["gt"][i]["p"])) if f1["gt"] else None
+        off = [e["p"][i] - f1["gt"][j]["p"][i] for i in range(3)] if j is not None else [0.0, 0.0, 0.0]
+        ests_desc.append((j, off, e))
+
+    def make_ests(objs):
+        out = []
+        for j, off, e in ests_desc:
+            if j is None or j >= len(objs):
+                continue
+            g = objs[j]
+            fid = g.frame_id if isinstance(g.frame_id, FrameID) else FrameID.from_value(str(g.frame_id))
+            out.append(
+                DynamicObject(
+                    unix_time=t,
+                    frame_id=fid,
+                    position=tuple(float(g.state.position[i]) + off[i] for i in range(3)),
+                    orientation=g.state.orientation,
+                    shape=Shape(ShapeType.BOUNDING_BOX, tuple(e["size"])),
+                    velocity=None,
+                    semantic_score=float(e["score"]),
+                    semantic_label=D.label(e["label"]),
+                    uuid=e["uuid"],
+                )
+            )
+        return out
+
+    by_uuid = sorted(now.objects, key=lambda o: o.uuid)
+    r1 = add(m1, now, make_ests(by_uuid), t, f1)
+    if r1 is None:
+        return
+    # manager 2: everything built from scratch, the 'interpolated' frame from the VALUES of the interpolated objects
+    m2 = MG.make_manager(d)
+    pool2 = build_pool()
+    m2.ground_truth_frames = pool2
+    if add(m2, pool2[0], D.objs3d(f0["est"], frame, f0["ego"], t0), t0, f0) is None:
+        return
+    fresh_objs = []
+    for o in now.objects:
+        fid = o.frame_id if isinstance(o.frame_id, FrameID) else FrameID.from_value(str(o.frame_id))
+        fresh_objs.append(
+            DynamicObject(
+                unix_time=o.unix_time,
+                frame_id=fid,
+                position=tuple(float(c) for c in o.state.position),
+                orientation=o.state.orientation,
+                shape=Shape(ShapeType.BOUNDING_BOX, tuple(o.state.size)),
+                velocity=o.state.velocity,
+                semantic_score=o.semantic_score,
+                semantic_label=D.label(o.semantic_label.label.value, attrs=o.semantic_label.attributes, orig=o.semantic_label.name),
+                pointcloud_num=o.pointcloud_num,
+                uuid=o.uuid,
+            )
+        )
+    fresh_tf = [HomogeneousMatrix.from_matrix(v.matrix.copy(), src=v.src, dst=v.dst) for _, v in now.transforms.items()]
+    fresh = FrameGroundTruth(t, now.frame_name, fresh_objs, transforms=fresh_tf)
+    fresh_sorted = sorted(fresh.objects, key=lambda o: o.uuid)
+    r2 = add(m2, fresh, make_ests(fresh_sorted), t, f1)
+    if r2 is None:
+        return
+    ests1, ests2 = make_ests(by_uuid), make_ests(fresh_sorted)
+
+    def summ(res, gts):
+        # index estimates by uuid and ground truths by uuid (objects differ in identity between the two managers)
+        pf = res.pass_fail_result
+        return {
+            "pairs": sorted((r.estimated_object.uuid, None if r.ground_truth_object is None else r.ground_truth_object.uuid, None if r.plane_distance is None or r.ground_truth_object is None else round(r.plane_distance.value, 6), None if r.ground_truth_object is None else round(r.iou_2d.value, 6)) for r in res.object_results),
+            "crit": sorted(g.uuid for g in res.frame_ground_truth.objects),
+            "tp": sorted(r.estimated_object.uuid for r in pf.tp_object_results),
+            "fp": sorted(r.estimated_object.uuid for r in pf.fp_object_results),
+            "fn": sorted(g.uuid for g in pf.fn_objects),
+            "tn": sorted(g.uuid for g in pf.tn_objects),
+        }
+
+    s1, s2 = summ(r1, now.objects), summ(r2, fresh.objects)
+    ctx.mark_nontrivial(bool(s2["tp"]) and len(now.objects) >= 2)
+    ctx.cls("frame_" + frame)
+    for key in ("crit", "pairs", "tp", "fp", "fn", "tn"):
+        ctx.require(s1[key] == s2[key], f"interpolated-frame-differs:{key}", lambda: f"evaluating the interpolated frame gives {key} = {s1[key]}, an equal frame built from scratch gives {s2[key]}")
+    a, b = MG.summarize_score(r1.metrics_score), MG.summarize_score(r2.metrics_score)
+    MG.compare_scores(ctx, a, b, "interpolated-frame-differs", tol=1e-9)
